@@ -250,7 +250,7 @@ func (f *Frame) instr(b *ssa.BasicBlock, ins ssa.Instruction, st *State) {
 		for _, r := range x.Results {
 			rs = append(rs, f.val(r, st))
 		}
-		f.rets = append(f.rets, retInfo{reach: reach, results: rs, st: st.clone(), pos: x.Pos()})
+		f.rets = append(f.rets, retInfo{reach: reach, results: rs, st: st.clone(), pos: x.Pos(), block: b})
 	case *ssa.If:
 		c := f.val(x.Cond, st)
 		f.setEdge(b, b.Succs[0], and(reach, c.Term), st)
